@@ -61,6 +61,7 @@ where
       let s_next = s.clone();
       let s_error = s.clone();
       let s_complete = s.clone();
+      let s_alive = s.clone();
 
       *sbsc.write().unwrap() = Some(
         utils::ready_set_go(
@@ -90,6 +91,14 @@ where
           },
         ),
       );
+      // the subscriber may have finished while it was being subscribed (on a
+      // replayed item, or on an item pushed while the source was connected):
+      // its unsubscribe hook found the slot above still empty
+      if !s_alive.is_subscribed() {
+        if let Some(sbsc) = &*sbsc.read().unwrap() {
+          sbsc.unsubscribe();
+        }
+      }
     })
   }
 
